@@ -73,7 +73,7 @@ func discoverPools(p *core.Prog) *poolInfo {
 	for _, t := range pi.borrow {
 		if n := core.NamedOf(t); n != nil && n.Obj().Pkg() == p.Main.Pkg {
 			pi.pooled[n] = true
-			if n.Obj().Name() == "Result" {
+			if core.KnownTypeName(n) == "Result" {
 				pi.resultType = n
 			}
 		}
@@ -351,11 +351,11 @@ func PoolCtor(p *core.Prog, r *core.Report) {
 				}
 			}
 			if len(rets) == 0 {
-				r.Unk(rule, "ctor:"+fn+":"+named.Obj().Name(), p.Pos(c.Pos()), "a borrowed validator is not returned by the borrowing function: not a constructor shape the rule knows")
+				r.Unk(rule, "ctor:"+fn+":"+core.KnownTypeName(named), p.Pos(c.Pos()), "a borrowed validator is not returned by the borrowing function: not a constructor shape the rule knows")
 				return
 			}
 			for fi := 0; fi < st.NumFields(); fi++ {
-				key := fn + ":" + named.Obj().Name() + "." + st.Field(fi).Name()
+				key := fn + ":" + core.KnownTypeName(named) + "." + st.Field(fi).Name()
 				ok := false
 				for _, s := range stores[fi] {
 					all := true
@@ -371,7 +371,7 @@ func PoolCtor(p *core.Prog, r *core.Report) {
 				if ok {
 					r.OK(rule, key, p.Pos(c.Pos()), "field assigned on every path from the borrow to the return")
 				} else {
-					r.Bad(rule, key, p.Pos(c.Pos()), fmt.Sprintf("field %s of a borrowed %s is not assigned on every path before the object is returned: it keeps the value of the object's previous life", st.Field(fi).Name(), named.Obj().Name()))
+					r.Bad(rule, key, p.Pos(c.Pos()), fmt.Sprintf("field %s of a borrowed %s is not assigned on every path before the object is returned: it keeps the value of the object's previous life", st.Field(fi).Name(), core.KnownTypeName(named)))
 				}
 			}
 			// read-before-write
@@ -392,7 +392,7 @@ func PoolCtor(p *core.Prog, r *core.Report) {
 						continue
 					}
 					nReads++
-					key := fn + ":read:" + named.Obj().Name() + "." + st.Field(fa.Field).Name()
+					key := fn + ":read:" + core.KnownTypeName(named) + "." + st.Field(fa.Field).Name()
 					if dominatedByStore(fa.Field, x) {
 						r.OK(rule, key, p.Pos(x.Pos()), "read after the field was assigned")
 					} else {
@@ -486,12 +486,12 @@ func checkScratch(p *core.Prog, r *core.Report, rule string, pi *poolInfo, f *ss
 			}
 			if !ok {
 				bad++
-				r.Bad(rule, "scratch:"+fn+":"+named.Obj().Name()+":use-before-overwrite", p.Pos(ref.Pos()), "a recycled scratch object is used before being overwritten as a whole: it still holds the content of its previous use")
+				r.Bad(rule, "scratch:"+fn+":"+core.KnownTypeName(named)+":use-before-overwrite", p.Pos(ref.Pos()), "a recycled scratch object is used before being overwritten as a whole: it still holds the content of its previous use")
 			}
 		}
 	}
 	if bad == 0 {
-		r.OK(rule, "scratch:"+fn+":"+named.Obj().Name(), p.Pos(c.Pos()), fmt.Sprintf("%d uses, each dominated by a whole-object store", n))
+		r.OK(rule, "scratch:"+fn+":"+core.KnownTypeName(named), p.Pos(c.Pos()), fmt.Sprintf("%d uses, each dominated by a whole-object store", n))
 	}
 }
 
